@@ -44,6 +44,12 @@ class Report:
         self.notes: Dict[str, Any] = {}
         self.min_counts: Dict[str, int] = {}
         self.rule_texts: Dict[str, str] = {}
+        self.undecided_rules: List[str] = []
+
+    def undecided(self, rule: str, reason: str):
+        """A rule whose anchor is not in a shape the analysis reads.  The other rules still run (a violation they find is
+        reported); without one the run ends as ANALYSIS-ERROR: no verdict on the property."""
+        self.undecided_rules.append('%s: %s' % (rule, reason))
 
     def rule(self, rule: str, text: str, min_count: int = 1):
         """Declare a rule, its statement and the vacuity guard."""
@@ -94,6 +100,8 @@ def finish(rep: Report, tier: str, seed: int, t0: float, consulted: Dict[str, st
     known0 = [k for k in load_known() if k.get('property') == rep.prop and k.get('status') == 'known']
     has_unlisted = any(o.verdict == VIOLATION and not any(k.get('rule') == o.rule and k.get('construct') == o.construct for k in known0)
                        for o in rep.obligations)
+    if rep.undecided_rules and not has_unlisted:
+        raise AnalysisError('undecided ' + '; '.join(rep.undecided_rules))
     for rule, n in rep.min_counts.items():
         c = rep.count(rule)
         if c < n and not has_unlisted:
